@@ -49,28 +49,18 @@ Definition cost (I : inst) (k : nat * nat) : Z :=
 (* strict: the arcs of the copied graph are re-added one by one through the class's own
    add_arc (strict timing filter); an unknown endpoint name raises ValueError *)
 Definition refilter (g : graph) : result graph :=
-  fold_left
-    (fun r kv =>
-       match r with
-       | Err e => Err e
-       | Ok g' =>
-           let a := snd kv in
-           match add_arc_gen true g' (aorig a) (adest a) (att a) (acost a) with
-           | Ok (g'', _) => Ok g''
-           | Err e => Err e
-           end
-       end)
-    (arcs g) (Ok (mkGraph (names g) (nodes g) [])).
+  readd_arcs true (mkGraph (names g) (nodes g) []) (arcs g).
 
 (* then, if there is a node 0 (depot_index is always 0), the class's own set_depot is called on
-   its name, which adds the depot self-arc; with no node the IndexError is swallowed *)
+   its name, which adds the depot self-arc (the node already is at position 0, so also in strict
+   mode nothing is re-added); with no node the IndexError is swallowed *)
 Definition seq_init (strict : bool) (g0 : graph) : result graph :=
   match (if strict then refilter g0 else Ok g0) with
   | Err e => Err e
   | Ok g1 =>
       match names g1 with
       | [] => Ok g1
-      | nm :: _ => seq_set_depot g1 nm
+      | nm :: _ => seq_set_depot strict g1 nm
       end
   end.
 
